@@ -1,4 +1,5 @@
 import SigModel.Model.Path
+import SigModel.Model.PathFlow
 import Oracle.Util
 /- suite "path" (C19):
      pclean <hex|->                → <hex|-> of filepath.Clean
@@ -6,6 +7,13 @@ import Oracle.Util
      pbuild <builder> <hex|->      → accept:<hex of the built path relative to the data dir> | reject
      preal  <builder> <hex|->      → same, or `unsafe` when the built path lies outside the harness sandbox
                                      (data dir = <sandbox>/o/data, i.e. the sandbox is two levels above)
+     pdecode <hex|->               → <hex|-> of url.PathUnescape | err
+     ptags <same|prom|fresh> <n> <hex|-> …   n samples of one series with these tag keys (one TagsHolder for all samples,
+                                     a prometheus remote-write request, one holder per sample) → acc=<k> rej=<m>
+     pdel <hex>                    a delete-index request value against the table {@A@, @B@} → <status> <removed dirs|->
+                                     (directories relative to the data dir, sorted, hex, comma separated) | unsafe
+   suite "confine" (C19 end to end):
+     cf <kind>:<hex|->[:<hex|->] …   → ok <number of steps>   (grammar only; the verdict of that suite is the PropFail)
    "-" stands for the empty byte string. The data dir has depth 4 (/tmp/<sandbox>/o/data) on both sides;
    the host id is "H" (config.SetHostIDForTestOnly). -/
 namespace Oracle.C19
@@ -43,6 +51,79 @@ def answer (real : Bool) (r : Option NPath) : String :=
     if real ∧ ¬ within ⟨true, D.take 2⟩ p then "unsafe"
     else "accept:" ++ enc (relTo (dataDir D) p)
 
+/-- step kinds of suite "confine": (name, number of client names, router-gated level-H handler) -/
+def cfKinds : List (String × Nat × Bool) := [
+  ("bulk", 1, false), ("bulkH", 1, false), ("docR", 1, false), ("docE", 1, false), ("docH", 1, false),
+  ("pidxR", 1, false), ("pidxE", 1, false), ("pidxH", 1, false), ("splunk", 1, false), ("otlplog", 1, false),
+  ("delR", 1, false), ("delE", 1, false), ("delH", 1, false), ("delapiE", 1, false), ("srchidx", 1, false), ("sortcol", 2, false),
+  ("aliasAdd", 2, false), ("aliasRm", 2, false), ("palE", 2, false), ("palH", 2, false), ("galE", 1, false), ("galH", 1, false),
+  ("headE", 1, false), ("headH", 1, false),
+  ("upload", 1, false), ("uploadO", 1, false), ("lkgetR", 1, false), ("lkgetE", 1, false), ("lkgetH", 1, true),
+  ("lkdelR", 1, false), ("lkdelE", 1, false), ("lkdelH", 1, true), ("ilookup", 1, false),
+  ("dashNew", 1, false), ("dashUpd", 2, false), ("dashGetE", 1, false), ("dashGetH", 1, true), ("dashDelE", 1, false), ("dashDelH", 1, true),
+  ("dashFavE", 1, false), ("foldNew", 2, false), ("foldGetE", 1, false), ("foldDelE", 1, false),
+  ("usqSave", 1, false), ("usqGetE", 1, false), ("usqDelE", 1, false), ("usqGetH", 1, false),
+  ("otsdbM", 1, false), ("otsdbK", 1, false), ("otsdbV", 1, false), ("promM", 1, false), ("promK", 1, false), ("promV", 1, false), ("promKH", 1, false),
+  ("otlpM", 1, false), ("otlpK", 1, false), ("otlpV", 1, false),
+  ("scroll", 1, false), ("staticR", 1, false), ("staticE", 1, false), ("pqsE", 1, false)]
+
+/-- one step token `kind:hex[:hex]`: well-formed, and (router-gated handlers at level H) a value the router can deliver -/
+def cfStepOK (tok : String) : Bool :=
+  match tok.splitOn ":" with
+  | k :: rest =>
+    (match cfKinds.find? (fun e => e.1 = k) with
+     | some (_, n, gated) =>
+       rest.length == n && rest.all (fun h => (dec h).isSome) &&
+         (!gated || (match rest.head? >>= dec with
+                     | some v => routeParamOK v
+                     | none => false))
+     | none => false)
+  | [] => false
+
+def cf (args : List String) : String :=
+  if args ≠ [] ∧ args.all cfStepOK then "ok " ++ toString args.length else "bad-op"
+
+def ptags (n : Nat) (keys : List Str) : String :=
+  match encodeSeries D H keys n with
+  | rs => "acc=" ++ toString (rs.filter Option.isSome).length ++ " rej=" ++ toString (rs.filter Option.isNone).length
+
+/-- vtable.ExpandAndReturnIndexNames for request values without '*' inside a name and with no aliases defined:
+    drop everything up to the first ':', then the comma pieces (as a set); values with '*' are not part of the suite -/
+def splitComma : Str → List Str
+  | [] => [[]]
+  | c :: cs =>
+    if c = ',' then [] :: splitComma cs
+    else match splitComma cs with
+      | [] => [[c]]
+      | s :: r => (c :: s) :: r
+
+def afterColon (v : Str) : Str :=
+  match v.dropWhile (· ≠ ':') with
+  | [] => v
+  | _ :: r => r
+
+def expand (table : List Str) (v : Str) : List Str :=
+  let _ := table
+  (splitComma (afterColon v)).eraseDups
+
+def pdelTable : List Str := ["@A@".toList, "@B@".toList]
+
+def insertSorted (x : String) : List String → List String
+  | [] => [x]
+  | y :: r => if x ≤ y then x :: y :: r else y :: insertSorted x r
+
+def pdel (v : Str) : String :=
+  if '*' ∈ v then "bad-op" else
+  if v = "traces".toList then "405 -" else
+  let cands := expand pdelTable v
+  -- the harness does not execute a request one of whose candidate directories lies outside its sandbox
+  if cands.any (fun c => ¬ within ⟨true, D.take 2⟩ (indexDir D H c)) then "unsafe" else
+  let (rm, _) := deleteIndex D H pdelTable cands
+  let nf := (cands.filter (fun c => c ∉ pdelTable)).length
+  let status := if nf = cands.length then "404" else "200"
+  let names := (rm.map (fun p => enc (relTo (dataDir D) p))).foldr insertSorted []
+  status ++ " " ++ (if names = [] then "-" else String.intercalate "," names)
+
 def handle (cmd : String) (args : List String) : Option String :=
   match cmd, args with
   | "pclean", [a] => some (match dec a with
@@ -61,6 +142,23 @@ def handle (cmd : String) (args : List String) : Option String :=
         | some r => answer true r
         | none => "bad-op")
       | none => "bad-op")
+  | "pdecode", [a] => some (match dec a with
+      | some v => (match pctDecode v with
+        | some w => enc w
+        | none => "err")
+      | none => "bad-op")
+  | "ptags", mode :: n :: ks => some (
+      if mode ≠ "same" ∧ mode ≠ "prom" ∧ mode ≠ "fresh" then "bad-op" else
+      match n.toNat?, ks.mapM dec with
+      | some n, some keys => if n = 0 ∨ n > 16 then "bad-op" else ptags n keys
+      | _, _ => "bad-op")
+  | "pdel", [a] => some (match dec a with
+      | some v => pdel v
+      | none => "bad-op")
+  | "cf", args => some (cf args)
+  | "pdecode", _ => some "bad-op"
+  | "ptags", _ => some "bad-op"
+  | "pdel", _ => some "bad-op"
   | "pclean", _ => some "bad-op"
   | "pjoin", _ => some "bad-op"
   | "pbuild", _ => some "bad-op"
